@@ -62,6 +62,8 @@ package fsm
 //@   ensures [C12.bounds.low+C01+C09]   err == nil ==> isEnc(opts.LowerBound, 1, low)
 //@   ensures [C12.bounds.high+C01+C09]  err == nil && !isWildcard(high) ==> isEnc(opts.UpperBound, 1, high)
 //@   ensures [C12.bounds.wild+C01+C09]  err == nil && isWildcard(high) ==> isW(opts.UpperBound)
+//@   ensures [C12.bounds.lowB+C01+C02+C09]  err == nil ==> bytesOf(opts.LowerBound) == encK(1, bytesOf(low))
+//@   ensures [C12.bounds.highB+C01+C02+C09] err == nil ==> bytesOf(opts.UpperBound) == (isWildcard(high) ? Wb() : encK(1, bytesOf(high)))
 //@   modifies nothing
 
 // ---------------------------------------------------------------- apply context (C01, C03)
@@ -339,3 +341,41 @@ package fsm
 //@   ensures ctx.index == old(ctx.index) && ctx.leaderIndex == old(ctx.leaderIndex) && ctx.db == old(ctx.db)
 //@   ensures (ctx.batch == old(ctx.batch) || fresh(ctx.batch)) && ctx.batch != ctx.db && (err == nil ==> ctx.batch != nil && ctx.batch.bdb == ctx.db)
 //@   modifies ctx.batch, ctx.batch.vP, ctx.batch.vV
+
+// ---------------------------------------------------------------- transactions (C02)
+
+// A predicate holds for a stored value v (the stored value is on the LEFT-hand side): target VALUE
+// with a value set: EQUAL v == c; NOT_EQUAL v != c; GREATER v > c; LESS v < c (bytewise);
+// anything else is an existence check only.
+//@ pure func cmpConst(c *regattapb.Compare) Bytes = bytesOf(asType(c.TargetUnion, *regattapb.Compare_Value).Value)
+//@ pure func cmpHolds(c *regattapb.Compare, v Bytes) bool = (c.Target == 0 && c.TargetUnion != nil && typeIs(c.TargetUnion, *regattapb.Compare_Value)) ? (c.Result == 0 ? v == cmpConst(c) : (c.Result == 3 ? v != cmpConst(c) : (c.Result == 1 ? blt(cmpConst(c), v) : (c.Result == 2 ? blt(v, cmpConst(c)) : true)))) : true
+
+// messages produced by the protobuf decoder never hold a typed-nil oneof wrapper
+// and *Compare_Value is the only implementation of the sealed oneof interface
+//@ pure func cmpWF(c *regattapb.Compare) bool = c != nil && (c.TargetUnion != nil ==> typeIs(c.TargetUnion, *regattapb.Compare_Value) && asType(c.TargetUnion, *regattapb.Compare_Value) != nil)
+//@ func txnCompareSingle
+//@   requires cmpWF(cmp)
+//@   ensures [C02.cmp.exist]  !(cmp.Target == 0 && cmp.TargetUnion != nil) ==> result
+//@   ensures [C02.cmp.eq]     cmp.Target == 0 && typeIs(cmp.TargetUnion, *regattapb.Compare_Value) && cmp.Result == 0 ==> result == (bytesOf(value) == cmpConst(cmp))
+//@   ensures [C02.cmp.ne]     cmp.Target == 0 && typeIs(cmp.TargetUnion, *regattapb.Compare_Value) && cmp.Result == 3 ==> result == (bytesOf(value) != cmpConst(cmp))
+//@   ensures [C02.cmp.gt]     cmp.Target == 0 && typeIs(cmp.TargetUnion, *regattapb.Compare_Value) && cmp.Result == 1 ==> result == blt(cmpConst(cmp), bytesOf(value))
+//@   ensures [C02.cmp.lt]     cmp.Target == 0 && typeIs(cmp.TargetUnion, *regattapb.Compare_Value) && cmp.Result == 2 ==> result == blt(bytesOf(value), cmpConst(cmp))
+//@   ensures [C02.cmp.single] result == cmpHolds(cmp, bytesOf(value))
+//@   modifies nothing
+
+//@ pure func hiB(e []byte) Bytes = isWildcard(e) ? Wb() : encK(1, bytesOf(e))
+//@ pure func holdsSingle(vp map[Bytes]Bool, vv map[Bytes]Bytes, c *regattapb.Compare) bool = vp[encK(1, bytesOf(c.Key))] && cmpHolds(c, vv[encK(1, bytesOf(c.Key))])
+//@ pure func holdsRange(vp map[Bytes]Bool, vv map[Bytes]Bytes, c *regattapb.Compare) bool = cnt(vp, encK(1, bytesOf(c.Key)), hiB(c.RangeEnd)) > 0 && (forall r Int :: 0 <= r && r < cnt(vp, encK(1, bytesOf(c.Key)), hiB(c.RangeEnd)) ==> cmpHolds(c, vv[nth(vp, encK(1, bytesOf(c.Key)), hiB(c.RangeEnd), r)]))
+// a predicate on a missing key or on an empty range is false; a range predicate holds only if every
+// key of the range satisfies the comparison
+//@ pure func holds(vp map[Bytes]Bool, vv map[Bytes]Bytes, c *regattapb.Compare) bool = isNilSlice(c.RangeEnd) ? holdsSingle(vp, vv, c) : holdsRange(vp, vv, c)
+
+// range predicate
+//@ func txnCompare$1
+//@   results ok, err
+//@   requires *reader != nil && cmpWF(*cmp)
+//@   ensures [C02.cmp.range] err == nil ==> ok == holdsRange((*reader).vP, (*reader).vV, *cmp)
+//@   modifies nothing
+//@   loop 0 invariant iter != nil && fresh(iter) && iter.bounded && iter.vP == (*reader).vP && iter.vV == (*reader).vV && iter.lo == encK(1, bytesOf((*cmp).Key)) && iter.hi == hiB((*cmp).RangeEnd)
+//@   loop 0 invariant 0 <= iter.pos && iter.pos <= cnt(iter.vP, iter.lo, iter.hi) && cnt(iter.vP, iter.lo, iter.hi) > 0 && iter.onKey == (iter.pos < cnt(iter.vP, iter.lo, iter.hi)) && (iter.onKey ==> iter.cur == nth(iter.vP, iter.lo, iter.hi, iter.pos))
+//@   loop 0 invariant forall r Int :: 0 <= r && r < iter.pos ==> cmpHolds(*cmp, iter.vV[nth(iter.vP, iter.lo, iter.hi, r)])
